@@ -75,6 +75,11 @@ fn acct_of_parent(sim: &Sim, p: &grin_keychain::Identifier) -> Option<usize> {
 
 /// Check the books of wallet `w`, account `acct` (must be active and freshly refreshed) against the chain.
 pub fn check_books(sim: &Sim, w: usize, acct: usize, kc: &ExtKeychain, out: &mut Outcome, tag: &str) -> Result<(usize, usize), String> {
+	check_books_of(sim, sim.w(w), w, acct, kc, out, tag)
+}
+
+/// Same, for an explicitly given handle of wallet `w` (e.g. a reopened copy of its directory).
+pub fn check_books_of(sim: &Sim, wal: &crate::world::Wal, w: usize, acct: usize, kc: &ExtKeychain, out: &mut Outcome, tag: &str) -> Result<(usize, usize), String> {
 	let chain = &sim.world.chain;
 	let h = sim.world.height();
 	let owned = truth::owned_utxos(chain, kc)?;
@@ -91,7 +96,7 @@ pub fn check_books(sim: &Sim, w: usize, acct: usize, kc: &ExtKeychain, out: &mut
 		})
 		.collect();
 	let gmap: BTreeMap<Vec<u8>, &Owned> = g.iter().map(|o| (o.commit.0.to_vec(), *o)).collect();
-	let v = snap::view(sim.w(w));
+	let v = snap::view(wal);
 	let mine: Vec<&grin_wallet_libwallet::OutputData> = v
 		.outputs
 		.iter()
@@ -142,10 +147,9 @@ pub fn check_books(sim: &Sim, w: usize, acct: usize, kc: &ExtKeychain, out: &mut
 	// figures
 	let mat = global::coinbase_maturity();
 	for min_conf in [1u64, 2, mat + 2].iter() {
-		let info = sim
-			.w(w)
+		let info = wal
 			.owner
-			.retrieve_summary_info(sim.w(w).m(), false, *min_conf)
+			.retrieve_summary_info(wal.m(), false, *min_conf)
 			.map_err(|e| e.to_string())?
 			.1;
 		let (mut locked, mut immature, mut awaiting, mut spendable) = (0u128, 0u128, 0u128, 0u128);
